@@ -14,6 +14,10 @@ point executed on the real `quantem.core.datastructures.Dataset`:
   pad/crop  every output_shape with 0..4 extra pixels per axis (and pad_width forms), then crop by the floor/ceil
             widths, on all axes at once and axis by axis.
 
+  identity  call sequences (every sequence up to length 4, periodic streams of 12) in which consecutive calls see other content behind
+            the same object identity: one Dataset refilled in place (directly / through a kept view), or dropped and rebuilt with
+            the new array object at the recycled id() of the old one; shapes and dtypes alternating by position.
+
 Oracles are independent of the implementation technique: block sums accumulated pixel by pixel in Python
 floats (no reshape), block-centre coordinates averaged pixel by pixel, and a resampling matrix written from the
 definition R[m,n] = (1/N) sum_{k in centred band} exp(2 pi i k m / M) exp(-2 pi i k n / N).
@@ -30,7 +34,7 @@ import numpy as np
 from mc.harness import Broken, Tally
 
 LEVEL = "exploration"
-TECHNIQUE = "full Cartesian lattices (shape x dtype x axis subset x factor tuple x reducer x mode; input x output shapes; pad widths) on the real Dataset, float64 pixel-loop block sums and a DFT-matrix resampler as oracles, complete delta basis; all ordered pairs/triples of colliding calls on a freshly re-imported module"
+TECHNIQUE = "full Cartesian lattices (shape x dtype x axis subset x factor tuple x reducer x mode; input x output shapes; pad widths) on the real Dataset, float64 pixel-loop block sums and a DFT-matrix resampler as oracles, complete delta basis; all ordered pairs/triples of colliding calls on a freshly re-imported module; all call sequences up to length 4 with other content behind the same object identity (in-place refill, rebuilt array at the recycled id)"
 CLAIM = (
     "For every point of the stated lattices the real Dataset.bin equals pixel-by-pixel float64 block sums (or means), drops only "
     "the trailing remainder, multiplies sampling by the factor and keeps total counts and every block-centre coordinate; "
@@ -39,7 +43,10 @@ CLAIM = (
     "equal shape and returns Nyquist-free input after up- then down-sampling; pad(output_shape) followed by crop of the floor/ceil widths "
     "is the identity. Every ordered pair (thorough: triple) of calls from an alphabet built to collide on coarse keys (same shape and factor tuple / out_shape / widths "
     "on different axes, orders, spellings, reducers, dtypes, forms, in-place vs copy) runs on a freshly re-imported module and the last call still satisfies its oracles: "
-    "a result does not depend on earlier calls. Exploration is the right level: the property quantifies over configurations and inputs, not over histories."
+    "a result does not depend on earlier calls. Every call sequence of length 2..4 (and periodic streams of 12) over bin / fourier_resample / pad+crop in which consecutive calls see OTHER content "
+    "behind the SAME object identity - the one Dataset refilled in place (ds.array[...] = x, also through a view the caller keeps), or the Dataset and its array dropped and a fresh one built whose "
+    "array object sits at the recycled id() of the dropped one, with shapes (8x6, 8x7, 8x6) and dtypes (float32, float64, complex64) alternating by position - gives at every call what that call gives on a "
+    "fresh Dataset holding that content; the id() reuse is forced, counted, and its absence is a broken check, not a pass. Exploration is the right level: the property quantifies over configurations and inputs, not over histories."
 )
 NOTE = (
     "Trusted: the pixel-loop block-sum oracle, the DFT resampling matrix (band = frequencies -(L//2) .. L-L//2-1 common to input and output, "
@@ -49,7 +56,9 @@ NOTE = (
 RULE = (
     "Cartesian products as stated in coverage.alphabet/bounds, simplest first; one evaluation = one call of bin / fourier_resample / pad+crop "
     "on a fresh Dataset compared with the oracle. Non-trivial: the output shape differs from the input shape and is not empty (bin, resample), "
-    "or at least one pixel was padded (pad/crop). Distinct outcomes = distinct (operation, output shape, origin, sampling, rounded checksum) records."
+    "or at least one pixel was padded (pad/crop). Distinct outcomes = distinct (operation, output shape, origin, sampling, rounded checksum) records. "
+    "Identity-reuse sequences: full product of the call alphabet to the stated depth per (transition, shape/dtype pattern), module re-imported before each; one evaluation = one call of a sequence; "
+    "non-trivial = the call ran on other content behind an identity an earlier call of the sequence has seen (same object refilled, or new array at the id() of the dropped one), distinct by sequence prefix."
 )
 
 # ----------------------------------------------------------------------------- tolerances
@@ -1787,6 +1796,242 @@ def reentrant_item(item, seed=0):
     return t
 
 
+# ============================================================================= OBJECT IDENTITY REUSE and IN-PLACE REFILL
+# "A result depends on the CONTENT the dataset holds when the call is made" — not on the identity of the objects that hold it.
+# Call sequences over {bin, fourier_resample, pad+crop} in which consecutive calls see OTHER content behind the SAME identity:
+#   refill        one Dataset for the whole sequence; between calls the caller writes other content into it: ds.array[...] = x
+#   refill_view   the same, written through a flat NumPy view of ds.array that the caller keeps
+#   rebuild       before every call the previous Dataset and its array are dropped (no reference left) and a fresh Dataset with
+#                 other content is built; the new array object is placed at the ADDRESS of the dropped one (id() equal): first
+#                 whatever the allocator gives ("natural"), otherwise candidates are allocated and parked until one lands there
+#                 ("hunted", at most REUSE_HUNT_LIMIT candidates). Reuse of the data pointer and of id(Dataset) is counted as observed.
+# Shape / dtype patterns by position: constant (8x6 float64 | float32 | complex64), shapes A,B,A,.. (8x6, 8x7), dtypes
+# float32,float64,complex64,float32,.. (the rebuild transition only: one object cannot change shape or dtype).
+# Sequences: every sequence of length `depth` over the call alphabet (all its prefixes, i.e. lengths 2..depth, are judged on the way)
+# plus the periodic streams c,c,c,.. and c1,c2,c1,.. of REUSE_STREAM_LEN short-lived datasets. Module re-imported before every
+# sequence. EVERY call of a sequence is judged by the lattice oracles (float64 block sums / DFT matrix / pad+crop identity and the
+# conservation laws) for the content it was given = what the same call gives on a fresh Dataset with no earlier call. A call that
+# fails is judged once more alone (fresh module, fresh objects); only if it passes there the failure belongs to this relation.
+REUSE_A, REUSE_B = (8, 6), (8, 7)
+REUSE_CFGS = {
+    "8x6_float64": [(REUSE_A, "float64")],
+    "8x6_float32": [(REUSE_A, "float32")],
+    "8x6_complex64": [(REUSE_A, "complex64")],
+    "shapes_8x6_8x7_alternating": [(REUSE_A, "float64"), (REUSE_B, "float64")],
+    "dtypes_float32_float64_complex64_cycling": [(REUSE_A, "float32"), (REUSE_A, "float64"), (REUSE_A, "complex64")],
+}
+REUSE_TRANSITIONS = ["refill", "refill_view", "rebuild"]
+REUSE_STREAM_LEN = 12
+REUSE_HUNT_LIMIT = 2048
+REUSE_RELATION = "result_independent_of_object_identity_and_earlier_content"
+_REUSE_ALPHA, _REUSE_CONTENT = {}, {}
+
+
+def reuse_alphabet(shape, dtype):
+    """Call descriptors (format of the call-history alphabet) for one shape and dtype. The last member works in place and is
+    used by the rebuild transition only (a refilled Dataset has to keep its shape)."""
+    key = (tuple(shape), dtype)
+    if key not in _REUSE_ALPHA:
+        shape = tuple(shape)
+        nd = len(shape)
+        allax = list(range(nd))
+
+        def R(axes, out, mode="copy"):
+            return {"op": "resample", "part": "reuse", "shape": list(shape), "dtype": dtype, "axes": list(axes), "out": list(out), "form": "out_shape", "spelling": "tuple", "mode": mode}
+
+        def B(axes, fac, reducer):
+            return {"op": "bin", "shape": list(shape), "dtype": dtype, "axes": list(axes), "factors": list(fac), "reducer": reducer, "mode": "copy", "spelling": "tuple"}
+
+        def P(widths, pad_kind, crop_style):
+            return {"op": "pad", "shape": list(shape), "dtype": dtype, "pad_kind": pad_kind, "widths": [list(w) for w in widths], "mode": "copy", "crop_style": crop_style}
+
+        _REUSE_ALPHA[key] = [
+            R(allax, [2 * n for n in shape]),                     # up-sampling, all axes
+            R(allax, list(shape)),                                # unchanged shape: the identity
+            R([nd - 1], [shape[-1] - 1]),                         # one axis, down, even <-> odd
+            B(allax, [2] * nd, "sum"),
+            B([0], [3], "mean"),                                  # 8 = 2*3 + remainder 2
+            P([widths_for(3)] * nd, "output_shape", "all"),
+            P([(1, 2)] + [(0, 1)] * (nd - 1), "pad_width", "axis_by_axis"),
+            R(allax, [2 * n for n in shape], mode="inplace"),     # rebuild only
+        ]
+    return _REUSE_ALPHA[key]
+
+
+def reuse_members(transition):
+    n = len(reuse_alphabet(REUSE_A, "float64"))
+    return list(range(n)) if transition == "rebuild" else list(range(n - 1))
+
+
+def reuse_content(shape, dtype, seed, k):
+    """Content of the k-th dataset of a sequence: seeded, different for every k (and with its own mean)."""
+    key = (tuple(shape), dtype, seed, k)
+    if key not in _REUSE_CONTENT:
+        a = make_array(tuple(shape), dtype, seed, tag=20 + k)
+        a = (a + np.asarray(3.0 * (k + 1), dtype=a.dtype)).astype(a.dtype)
+        a.flags.writeable = False
+        _REUSE_CONTENT[key] = a
+    return _REUSE_CONTENT[key]
+
+
+def reuse_sequences(transition, depth, first):
+    """All index sequences of this part whose first call is alphabet member `first`."""
+    m = reuse_members(transition)
+    for rest in itertools.product(m, repeat=depth - 1):
+        yield (first,) + rest
+    yield (first,) * REUSE_STREAM_LEN
+    for j in m:
+        if j != first:
+            yield (first, j) * (REUSE_STREAM_LEN // 2)
+
+
+def reuse_build(a, target):
+    """A fresh Dataset on a fresh array with the contents of `a`; the array OBJECT is placed at address `target` (the id() of the array
+    dropped just before) if the allocator can be brought to hand that address out again.
+    Returns (dataset, (id(array), data pointer, id(dataset)), how) with how in first / natural / hunted / missed."""
+    if _DATASET_CLS is not None:
+        Dataset = _DATASET_CLS
+    else:
+        from quantem.core.datastructures import Dataset
+    origin, sampling, units = meta(a.ndim)
+    x = np.empty(a.shape, dtype=a.dtype)
+    how = "first" if target is None else "natural"
+    if target is not None and id(x) != target:
+        parked = [x]
+        how = "missed"
+        for _ in range(REUSE_HUNT_LIMIT):
+            x = np.empty(a.shape, dtype=a.dtype)
+            if id(x) == target:
+                how = "hunted"
+                break
+            parked.append(x)
+        else:
+            x = parked[0]
+        del parked
+    x[...] = a
+    d = Dataset.from_array(x, origin=list(origin), sampling=list(sampling), units=list(units))
+    arr = d.array
+    if arr is not x:
+        how = "library_copied"
+    ids = (id(arr), arr.__array_interface__["data"][0], id(d))
+    return d, ids, how
+
+
+def run_reuse_sequence(fm, t, seed, transition, cfgname, idxs, only_step=None):
+    """Execute one sequence, judge every call, record cases / failures in t. Returns the number of failing calls."""
+    global _DATASET_OBJ
+    pattern = REUSE_CFGS[cfgname]
+    n = len(idxs)
+    descs, contents = [], []
+    for k, i in enumerate(idxs):
+        shape, dtype = pattern[k % len(pattern)]
+        descs.append(reuse_alphabet(shape, dtype)[i])
+        contents.append(reuse_content(shape, dtype, seed, k))
+    fm.fresh()
+    results = [None] * n   # filled by index: nothing is allocated and kept between a call and the next build
+    hows = [None] * n
+    reused = [None] * n
+    d = view = ids = None
+    for k in range(n):
+        a, c = contents[k], descs[k]
+        if transition == "rebuild" or d is None:
+            prev = ids
+            d = view = None  # the previous Dataset and its array are gone here (nothing else refers to them)
+            d, ids, how = reuse_build(a, prev[0] if prev is not None else None)
+            hows[k] = how
+            reused[k] = (False, False, False) if prev is None else (ids[0] == prev[0], ids[1] == prev[1], ids[2] == prev[2])
+            if transition == "refill_view":
+                view = d.array.reshape(-1)
+                if not np.shares_memory(view, d.array):
+                    raise Broken("reshape(-1) of a fresh C-contiguous array is not a view")
+        else:
+            arr = d.array
+            if (id(arr), arr.__array_interface__["data"][0], id(d)) != ids or arr.shape != a.shape or arr.dtype != a.dtype:
+                # an earlier copying call replaced or reshaped the array of its source (itself reported by that call's oracle)
+                d = view = None
+                d, ids, how = reuse_build(a, None)
+                hows[k], reused[k] = "rebuilt_after_source_changed", (False, False, False)
+                if transition == "refill_view":
+                    view = d.array.reshape(-1)
+            else:
+                if transition == "refill":
+                    d.array[...] = a
+                else:
+                    view[...] = a.reshape(-1)
+                hows[k], reused[k] = "same_object", (True, True, True)
+            del arr
+        _DATASET_OBJ = d
+        if transition == "rebuild":
+            d = None  # the only reference is handed to the call below
+        try:
+            results[k] = do_call_on(c, a)
+        finally:
+            _DATASET_OBJ = None
+    d = view = None
+    nfail = 0
+    order = BIN_ORDER + FR_ORDER + PAD_ORDER
+    for k in range(n):
+        status, probs, info = results[k]
+        c = descs[k]
+        t.extra["reuse_calls"] += 1
+        t.extra["reuse_calls_" + transition] += 1
+        if k > 0:
+            t.extra[f"reuse_{transition}_transitions"] += 1
+            # natural / hunted and the (unforced) reuse of data pointer and id(Dataset) depend on the heap of the worker process: they are
+            # shown in failure messages but kept out of the evidence counters; "array id reused" is forced and therefore reproducible
+            t.extra[f"reuse_{transition}_{'array_id_reused' if hows[k] in ('natural', 'hunted') else hows[k]}"] += 1
+        same_identity = k > 0 and bool(reused[k][0])
+        t.case(key=("reuse", transition, cfgname, tuple(idxs[: k + 1])) if same_identity else None, nontrivial=same_identity,
+               outcome=("reuse", transition, c["op"], status, info.get("out_shape"), not probs))
+        if not probs or (only_step is not None and k != only_step):
+            continue
+        nfail += 1
+        probs.sort(key=lambda p: order.index(p[0]))
+        fm.fresh()
+        alone = do_call_on(c, contents[k])[1]  # fresh module, fresh Dataset, fresh array, no earlier call
+        case = {"op": "reuse", "transition": transition, "cfg": cfgname, "calls": [int(i) for i in idxs], "step": k}
+        if alone:
+            alone.sort(key=lambda p: order.index(p[0]))
+            t.fail({"op": c["op"], "relation": alone[0][0], "spelling": c.get("spelling", c.get("pad_kind")), "via": "reuse-alone"}, case,
+                   f"alone, on a freshly imported module: {call_text(c)}: {alone[0][1]}")
+            continue
+        between = {"refill": "ds.array[...] = other content", "refill_view": "other content written through a flat view of ds.array",
+                   "rebuild": "the Dataset and its array dropped and a fresh Dataset built"}[transition]
+        idtxt = "same Dataset and array object" if transition != "rebuild" else (
+            f"new array {'at the address (id) of the dropped one' if reused[k][0] else 'at another address'} [{hows[k]}], data pointer {'reused' if reused[k][1] else 'new'}, id(Dataset) {'reused' if reused[k][2] else 'new'}")
+        t.fail({"op": c["op"], "relation": REUSE_RELATION, "broken": probs[0][0], "transition": transition},
+               case,
+               f"[{transition}, {cfgname}] call {k + 1} of a sequence, after {call_text(descs[k - 1])}{f' (and {k - 1} call(s) before it)' if k > 1 else ''}; between calls: {between}; {idtxt}. "
+               f"{call_text(c)} fails for the content it was given: {probs[0][1]} (alone, on a fresh Dataset and a freshly imported module, the same call on the same content passes)")
+    return nfail
+
+
+def reuse_item(item, seed=0):
+    transition, cfgname, depth, first = item
+    t = Tally()
+    with FreshModule() as fm:
+        for idxs in reuse_sequences(transition, depth, first):
+            run_reuse_sequence(fm, t, seed, transition, cfgname, idxs)
+            t.extra["reuse_sequences"] += 1
+    if transition == "rebuild":
+        t.extra["reuse_rebuild_items"] += 1
+        t.extra["reuse_rebuild_items_with_id_reuse_observed"] += int(t.extra["reuse_rebuild_array_id_reused"] > 0)
+    return t
+
+
+def reuse_items(quick):
+    """(transition, shape/dtype pattern, depth, first call). Quick: depth 4 on 8x6 float64 for every transition, depth 3 elsewhere."""
+    items = []
+    for transition in REUSE_TRANSITIONS:
+        for cfgname, pattern in REUSE_CFGS.items():
+            if transition != "rebuild" and len(pattern) > 1:
+                continue  # one object keeps its shape and dtype
+            depth = 4 if (cfgname == "8x6_float64" or not quick) else 3
+            for first in reuse_members(transition):
+                items.append((transition, cfgname, depth, first))
+    return items
+
+
 # ============================================================================= enumeration
 def bin_items(quick):
     items = []
@@ -1892,6 +2137,8 @@ def run(ctx):
         "copies: copy.copy / copy.deepcopy / pickle / ds.copy() (save+load is not in the family); re-entrancy: the documented hook _copy_custom_attributes of a user subclass, called once per copying operation",
         "module state: every lattice item and every call history starts from a freshly re-executed quantem.core.datastructures.dataset (importlib.reload semantics); "
         "a lattice point that fails is re-judged alone on a fresh module and, if it passes there, reported as a dependence on earlier calls with the shortest history found",
+        "identity reuse: id() of an ndarray is its address; CPython's allocator hands a freed address out again, which the check forces by parking candidate arrays until one lands on the address of the dropped array "
+        "(counted; no reuse observed = broken check). Writing into ds.array in place (ds.array[...] = x, or through a view) is a legitimate way to change the content of a Dataset; the next call must see the new content",
     )
 
     a0 = make_array((4, 5), "complex64", ctx.seed, tag=9)
@@ -1948,6 +2195,17 @@ def run(ctx):
     if ctx.tally.extra["copies_points"] < 500 or ctx.tally.extra["reentrant_points"] < 100:
         raise Broken("copies / re-entrant families degenerate")
 
+    ritems = reuse_items(quick)
+    ctx.say(f"identity reuse / in-place refill: {len(ritems)} (transition, shape-dtype pattern, depth, first call) items")
+    ctx.pmap(reuse_item, sorted(ritems, key=lambda it: -len(reuse_members(it[0])) ** it[2]), chunk=1, label="identity-reuse", seed=ctx.seed)
+    exr = ctx.tally.extra
+    if exr["reuse_rebuild_items_with_id_reuse_observed"] < exr["reuse_rebuild_items"] or exr["reuse_rebuild_items"] == 0:
+        raise Broken("identity reuse: in at least one rebuild item no new array ever landed at the address (id) of the dropped one; the family would pass vacuously")
+    if 2 * exr["reuse_rebuild_array_id_reused"] < exr["reuse_rebuild_transitions"]:
+        raise Broken(f"identity reuse: the array id was reused in only {exr['reuse_rebuild_array_id_reused']} of {exr['reuse_rebuild_transitions']} drop-and-rebuild transitions")
+    if exr["reuse_refill_same_object"] < exr["reuse_refill_transitions"] or exr["reuse_refill_view_same_object"] < exr["reuse_refill_view_transitions"] or exr["reuse_refill_transitions"] == 0:
+        raise Broken("in-place refill: a copying call replaced the array of its source, the refill sequences did not keep one object")
+
     pitems = pad_items(quick)
     ctx.say(f"pad/crop: {len(pitems)} (shape, dtype) items")
     ctx.pmap(pad_item, pitems, chunk=1, label="pad-crop", seed=ctx.seed)
@@ -2000,6 +2258,15 @@ def run(ctx):
                 "hook": "_copy_custom_attributes of a user subclass",
                 "pairs": "every (outer, inner) in " + str(REENTRANT_OPS) + " squared; variants: hook runs the inner op on the source; two threads with the interleaving pinned by threading.Event; hook raises",
             },
+            "identity_reuse_and_refill": {
+                "transitions": {"refill": "one Dataset, ds.array[...] = other content between calls", "refill_view": "the same through a flat view of ds.array kept by the caller",
+                                "rebuild": f"previous Dataset and array dropped, fresh Dataset with other content whose array object sits at the id() of the dropped one (allocator's choice first, else up to {REUSE_HUNT_LIMIT} parked candidates)"},
+                "shape_dtype_patterns_by_position": {k: [[list(sh), dt] for sh, dt in v] for k, v in REUSE_CFGS.items()},
+                "patterns_with_more_than_one_member": "rebuild only",
+                "calls": {"8x6": [call_text(c) for c in reuse_alphabet(REUSE_A, "float64")], "last_member": "in place, rebuild only"},
+                "sequences": f"every sequence of length depth (prefixes = lengths 2..depth judged on the way) plus the streams c,c,.. and c1,c2,c1,.. of {REUSE_STREAM_LEN} datasets; depth 4 on 8x6 float64" + (", 3 on the other patterns" if quick else " and on every other pattern"),
+                "oracle": "every call judged by the lattice oracles for the content it was given; a failing call is re-judged alone on a fresh module and fresh objects",
+            },
             "call_histories": {
                 "alphabet": [call_text(c) for c in halpha],
                 "histories": "every ordered pair of calls" + ("" if quick else " and every triple whose middle call is every third alphabet member") + "; quantem.core.datastructures.dataset re-imported before each; last call judged by the lattice oracles; every call also judged alone",
@@ -2020,6 +2287,10 @@ def run(ctx):
             "pad_items": len(pitems),
             "history_alphabet": len(halpha),
             "history_depth": depth,
+            "reuse_items": len(ritems),
+            "reuse_depths": sorted({it[2] for it in ritems}),
+            "reuse_stream_length": REUSE_STREAM_LEN,
+            "reuse_hunt_limit": REUSE_HUNT_LIMIT,
         },
         tolerances={"float64_complex128_int": TOL64, "float32_complex64": TOL32, "metadata": TOL_META},
     )
@@ -2059,6 +2330,20 @@ def replay(ctx, case):
                 print("  observed:", f["msg"])
                 ctx.fail(f["cls"], case, f["msg"])
         print("  expected: the spelling is rejected with an exception and nothing changes, or it gives the bit-identical result of the canonical spelling")
+        return
+    if op == "reuse":
+        t = Tally()
+        with FreshModule() as fm:
+            run_reuse_sequence(fm, t, seed, case["transition"], case["cfg"], tuple(case["calls"]), only_step=case["step"])
+        pattern = REUSE_CFGS[case["cfg"]]
+        for k, i in enumerate(case["calls"][: case["step"] + 1]):
+            sh, dt = pattern[k % len(pattern)]
+            print(f"  call {k + 1}: {call_text(reuse_alphabet(sh, dt)[i])} on content #{k}")
+        print(f"  between calls ({case['transition']}); array id reused in {t.extra['reuse_' + case['transition'] + '_array_id_reused'] + t.extra['reuse_' + case['transition'] + '_same_object']} of {t.extra['reuse_' + case['transition'] + '_transitions']} transitions of this replay")
+        for f in t.fails:
+            print("  observed:", f["msg"])
+            ctx.fail(f["cls"], case, f["msg"])
+        print("  expected: every call gives what the same call gives on a fresh Dataset holding that content (float64 block sums / DFT-matrix resampler / pad+crop identity)")
         return
     if op == "history":
         hist = case["history"]
